@@ -212,6 +212,14 @@ func runtimeCell(cause, load string) cellResult {
 		} else {
 			_, _ = aw.WriteString(badAuditLine)
 		}
+	case "login-record-with-unparsable-pid":
+		// a failure reported by the correlator (not by the parser): the kernel LOGIN record's pid is not a number
+		l := strings.Replace(auditgen.Simple("LOGIN", 1700000200, 60001, "4242", "777", "1").Recs[0].Line, "pid=777", "pid=abc", 1) + "\n"
+		if fl != nil {
+			fl.inject <- l
+		} else {
+			_, _ = aw.WriteString(l)
+		}
 	case "invalid-login-with-another-login-buffered":
 		// the correlator rejects the first login (pid 0) and the audit worker stops with that error while
 		// the sshd worker already holds the next login and has nobody to hand it to
@@ -337,7 +345,7 @@ func startupCell(which, kind string) cellResult {
 }
 
 func runC08(run *mc.Run) int {
-	causes := []string{"sshd-pipe-eof", "audit-pipe-eof", "unparsable-audit-line", "invalid-login-with-another-login-buffered", "output-dev-full", "output-fifo-reader-left", "sigterm", "sigint"}
+	causes := []string{"sshd-pipe-eof", "audit-pipe-eof", "unparsable-audit-line", "login-record-with-unparsable-pid", "invalid-login-with-another-login-buffered", "output-dev-full", "output-fifo-reader-left", "sigterm", "sigint"}
 	var results []cellResult
 	inconclusive := 0
 	judge := func(r cellResult) {
@@ -389,7 +397,7 @@ func runC08(run *mc.Run) int {
 		}
 	}
 	cov := mc.Coverage{Level: "fault_enumeration", Evaluations: len(results), Distinct: len(results) - inconclusive, Exhaustive: inconclusive == 0, Samples: samples,
-		Rule:  "fault enumeration on the built binary over real FIFOs: 8 run-time causes (sshd pipe EOF, audit pipe EOF, unparsable audit line, a login the correlator rejects while the next login is already buffered, output /dev/full, output FIFO whose reader left, SIGTERM, SIGINT) x load {idle, stalled-output: the events FIFO is never drained so the line buffer and the audit pipe stay full (write end accepts no byte for >=300 ms), saturated: a writer keeps the audit FIFO full - single-record events written at full speed, >=8 MB written and the pipe found full >=50 times - flow equilibrium with the 10000-slot line buffer full}, 6 start-up causes (sshd/audit path is a regular file, a directory, missing); oracle: the process exits within 10 s of the cause, non-zero for failures. A cell whose set-up could not be reached is inconclusive (exit 0, exhaustive=false). distinct_nontrivial = conclusive cells",
+		Rule:  "fault enumeration on the built binary over real FIFOs: 9 run-time causes (sshd pipe EOF, audit pipe EOF, unparsable audit line, a LOGIN record whose pid is not a number, a login the correlator rejects while the next login is already buffered, output /dev/full, output FIFO whose reader left, SIGTERM, SIGINT) x load {idle, stalled-output: the events FIFO is never drained so the line buffer and the audit pipe stay full (write end accepts no byte for >=300 ms), saturated: a writer keeps the audit FIFO full - single-record events written at full speed, >=8 MB written and the pipe found full >=50 times - flow equilibrium with the 10000-slot line buffer full}, 6 start-up causes (sshd/audit path is a regular file, a directory, missing); oracle: the process exits within 10 s of the cause, non-zero for failures. A cell whose set-up could not be reached is inconclusive (exit 0, exhaustive=false). distinct_nontrivial = conclusive cells",
 		Extra: map[string]any{"cells": results, "saturated_cells_reached": sat, "inconclusive": inconclusive, "bound_s": exitBound.Seconds()}}
 	cov.Assumptions = []string{"the OS scheduler is not controlled; 10 s is the property's bounded time against observed millisecond latencies",
 		"the decisive blocking state (line buffer full, consumer gone) is also decided deterministically by C13's bubble cells"}
